@@ -24,7 +24,7 @@ from vlib import core, symref
 
 ID = "C15"
 READY = True
-LEVEL = "differential"
+LEVEL = "exploration"
 RULE = ("(a) construct enumerator, a finite product of 21 913 small modules of which the interpreter accepts "
         "18 835: 57 binding statement forms (every Assign shape, AugAssign, AnnAssign, For/AsyncFor, With/AsyncWith, "
         "Except/Except*, walrus, Import/ImportFrom forms, MatchAs/MatchStar/MatchMapping patterns, Global, "
